@@ -372,6 +372,40 @@ func c05CloseDiscipline(c *Ctx, r *Report, units []*bodyUnit, rulePrefix string)
 			}
 		}
 	}
+	// a method that calls a sender helper on its own receiver (outside closures) is
+	// itself a sender helper of that channel (helpers extracted from the send loops)
+	for changed := true; changed; {
+		changed = false
+		for _, u := range units {
+			if isTestSupportPkg(u.Pkg.PkgPath) || u.Lit != nil || u.Decl.Recv == nil || len(u.Decl.Recv.List) != 1 || len(u.Decl.Recv.List[0].Names) != 1 {
+				continue
+			}
+			info := u.Pkg.TypesInfo
+			obj, _ := info.Defs[u.Decl.Name].(*types.Func)
+			if obj == nil || senderFns[obj] != nil {
+				continue
+			}
+			recvObj := info.Defs[u.Decl.Recv.List[0].Names[0]]
+			inspectNoLit(u.Decl.Body, func(n ast.Node) bool {
+				if _, isGo := n.(*ast.GoStmt); isGo {
+					return false
+				}
+				call, ok := n.(*ast.CallExpr)
+				if !ok {
+					return true
+				}
+				f := calleeFunc(info, call)
+				if f == nil || senderFns[f] == nil || senderFns[obj] != nil {
+					return true
+				}
+				if se, ok := call.Fun.(*ast.SelectorExpr); ok && recvObj != nil && identObj(info, se.X) == recvObj {
+					senderFns[obj] = senderFns[f]
+					changed = true
+				}
+				return true
+			})
+		}
+	}
 	// 2. enumerate close sites
 	var sites []closeSite
 	for _, u := range units {
